@@ -64,6 +64,9 @@ theorem fmtIntCore_unsupported (f : Fmt) (i : Int) :
     unfold fmtIntCore
     rw [if_neg h1, if_neg h2, if_neg h3, if_neg h4]
 
+theorem exceptRes_not_reported (r : Except FaultKind Str) (k : Str → Str) (c : Code) : exceptRes r k ≠ .reported c := by
+  cases r <;> simp [exceptRes]
+
 theorem fmtFloat_reported (io : FloatIO) (f : Fmt) (bits : Nat) (c : Code) (h : fmtFloat io f bits = .reported c) :
     c = .unsupported ∧ accepts .float f.letter = false := by
   unfold fmtFloat at h
@@ -74,16 +77,16 @@ theorem fmtFloat_reported (io : FloatIO) (f : Fmt) (bits : Nat) (c : Code) (h : 
     tauto
   · rw [if_neg h1] at h
     by_cases h2 : f.letter = 'p'
-    · rw [if_pos h2] at h; simp at h
+    · rw [if_pos h2] at h; exact absurd h (exceptRes_not_reported _ _ _)
     · rw [if_neg h2] at h
       by_cases h3 : (decide (f.letter = 'e') || decide (f.letter = 'E') || decide (f.letter = 'f')) = true
-      · rw [if_pos h3] at h; split at h <;> simp at h
+      · rw [if_pos h3] at h; exact absurd h (exceptRes_not_reported _ _ _)
       · rw [if_neg h3] at h
         by_cases h4 : (decide (f.letter = 'g') || decide (f.letter = 'G')) = true
-        · rw [if_pos h4] at h; simp at h
+        · rw [if_pos h4] at h; exact absurd h (exceptRes_not_reported _ _ _)
         · rw [if_neg h4] at h
           by_cases h5 : f.letter = 's'
-          · rw [if_pos h5] at h; simp at h
+          · rw [if_pos h5] at h; exact absurd h (exceptRes_not_reported _ _ _)
           · rw [if_neg h5] at h
             simp at h
             refine ⟨h.symm, ?_⟩
